@@ -159,10 +159,14 @@ func unsignedRange(t types.Type, v *Term) *Term {
 
 const maxArrayLen = 64
 
+// arrayLen: number of modelled elements. Arrays longer than maxArrayLen (the only instance on the
+// verified paths is text/scanner's internal 1 KiB buffer) are not modelled at all: they have no
+// cells, and any attempt of verified code to index them is rejected (see indexAddr), so that not
+// copying their contents is unobservable.
 func arrayLen(t types.Type) int {
 	a := t.Underlying().(*types.Array)
 	if a.Len() > maxArrayLen {
-		unsupp("array too long: %s", t)
+		return 0
 	}
 	return int(a.Len())
 }
